@@ -557,7 +557,9 @@ class C05:
 
 # ---------------------------------------------------------------------- C16
 class C16:
-    rule_extra = C04.rule_extra
+    rule_extra = C04.rule_extra + (" Class '+zero-island' (6 % of the directory cases): one file holds an island of zero bytes covering at least "
+                                   "one whole piece and is removed or cut off before / inside / at the end of the island; the absent all-zero "
+                                   "pieces, read as zeros, hash to the recorded values and count towards the percentage.")
     id = "C16"
     quick, thorough = 2000, 40000
     timeout = 120
@@ -565,7 +567,8 @@ class C16:
             "reference = 100 * bytes in verifying pieces / all bytes, computed piece by piece with absent data "
             "read as zeros; non-trivial when >= 1 damage; distinct by (version, encoder kind, damage signature, "
             "number of damages, layout)")
-    required = ("compared_v1", "compared_v2", "compared_v3", "multi_damage_cases", "partial_results")
+    required = ("compared_v1", "compared_v2", "compared_v3", "multi_damage_cases", "partial_results",
+                "absent_all_zero_pieces_cases")
     assumptions = C04.assumptions
 
     @staticmethod
